@@ -264,20 +264,22 @@ def run_impl(case):
 def encode(case):
     if case['kind'] == 'ops':
         return sched.encode_ops(case['cmds'])
-    return [0]
+    # the traffic recorded on the thread-local stores while the arrangement ran (run_impl ran before)
+    return sched.encode_ops(sched.trace_cmds(case) or [])
 
 
 def decode(out, case):
     if case['kind'] == 'ops':
         return dict(kind='ops', outs=sched.decode_ops(out, case['cmds']))
-    return dict(kind='arr', outs=sched.decode_ops(out, []))
+    return dict(kind='arr', outs=sched.decode_ops(out, sched.trace_cmds(case) or []))
 
 
 def project(obs, case):
     if case['kind'] == 'ops':
         return obs
-    # an arrangement has no model-side counterpart: the model answers the empty command list
-    return dict(kind='arr', outs=[])
+    # what every access to the thread-local stores returned while the real requests were served, to be
+    # predicted by the model from the recorded sequence of accesses
+    return dict(kind='arr', outs=obs.get('trace_outs', []))
 
 
 def ops_failure(cmds, outs):
